@@ -33,6 +33,17 @@ def gen_case(g, r, kind):
         a = ["AnyOf", [["Tuple", pre, ["Any"]], g.leaf(), g.ty(1, names)]]
         b = r.choice([g.leaf(), ["Number"], ["String"]])
         return env, ["diff", ["ty", a], ["ty", b]], ("diff", a, b)
+    if kind == "tuple-index":
+        # indexed access into tuples (with and without rest, alone or in a union of tuples) by literal indices around the prefix length
+        def tup():
+            pre = [g.leaf() for _ in range(r.randrange(1, 4))]
+            return ["Tuple", pre, g.leaf() if r.random() < 0.7 else None]
+        ts_ = [tup() for _ in range(r.choice([1, 1, 2]))]
+        t = ts_[0] if len(ts_) == 1 else ["AnyOf", ts_]
+        hi = max(len(x[1]) for x in ts_) + 1
+        ks = sorted(r.sample(range(0, hi + 1), r.choice([1, 1, 2])))
+        kt = typegen.lit_n(ks[0]) if len(ks) == 1 else ["AnyOf", [typegen.lit_n(k) for k in ks]]
+        return env, ["index", ["ty", t], ["ty", kt]], ("tindex", ts_, ks)
     if kind in ("keyof", "index"):
         ms = [g.obj(2, names, keys=sorted(r.sample(["a", "b", "c", "k"], r.randrange(1, 4))), index=False) for _ in range(r.randrange(1, 3))]
         t = ms[0] if len(ms) == 1 else ["AnyOf", ms]
@@ -56,6 +67,13 @@ def expected(sem, spec, v):
     if op in ("diff", "intersect", "union"):
         ma, mb = sem.member(a, v, False), sem.member(b, v, False)
         return {"diff": ma and not mb, "intersect": ma and mb, "union": ma or mb}[op]
+    if op == "tindex":
+        # the union, over the tuples and the indices, of the element type at that position (the rest type beyond the prefix)
+        for tp in a:
+            for k in b:
+                et = tp[1][k] if k < len(tp[1]) else tp[2]
+                if et is not None and sem.member(et, v, False): return True
+        return False
     ms = object_members(sem, a)
     if ms is None: raise semref.Incomplete("keyof/index operand")
     if op == "keyof":
@@ -78,7 +96,7 @@ def check(run):
     g.no_allof = True
     r = random.Random(run.seed + 701)
     n = 420 if quick else 8000
-    kinds = ["diff", "diff", "intersect", "union", "keyof", "index", "tuple-any-rest", "diff"]
+    kinds = ["diff", "diff", "intersect", "union", "keyof", "index", "tuple-any-rest", "diff", "tuple-index"]
     cases = [gen_case(g, r, kinds[i % len(kinds)]) for i in range(n)]
     known = common.load_known("C07")
     for kf in known:
@@ -142,6 +160,7 @@ def check(run):
         sem = semref.Sem(env + gen + [[o["root_name"], root]], runtime=True)
         try:
             operands = [t for t in (spec[1], spec[2]) if isinstance(t, list) and t and isinstance(t[0], str)]
+            if spec[0] == "tindex": operands = list(spec[1])
             uni = sem.universe(operands + [root])
             pool = []
             for t in operands + [root]:
@@ -172,7 +191,8 @@ def check(run):
     cov = run.coverage
     cov["evaluations"] = len(cases)
     cov["distinct_nontrivial"] = judged["meaning compared on values"]
-    cov["rule"] = ("semantic expressions over IR operands of the fragment (difference, intersection, union, keyof, indexed access; tuples with a "
+    cov["rule"] = ("semantic expressions over IR operands of the fragment (difference, intersection, union, keyof, indexed access into objects and into "
+                   "tuples by literal indices around the prefix length; tuples with a "
                    "typed prefix and an any rest) evaluated by the engine and materialised with semtype_to_runtypes; each result is checked for "
                    "printability, helper names (unique, all defined), is_same_type after converting it back, and meaning: the computed type's "
                    "membership (from the operands) against the materialised type's membership on values enumerated from operands and result; "
